@@ -142,8 +142,12 @@ pub fn c04(tier: &str, seed: u64) -> Check {
     }
     reps!(AL, AM, AX, EL, WU);
     if !thorough {
-        // order 5 in the quick tier: two representations, ≤ 2 sources
+        // order 5 in the quick tier: every representation, ≤ 1 source
         spaces.push(c04_space::<AL>(5, 1));
+        spaces.push(c04_space::<AM>(5, 1));
+        spaces.push(c04_space::<AX>(5, 1));
+        spaces.push(c04_space::<EL>(5, 1));
+        spaces.push(c04_space::<WU>(5, 1));
     }
     let report = super::report(
         "C04",
@@ -293,6 +297,10 @@ pub fn c06(tier: &str, seed: u64) -> Check {
         spaces.push(c06_space::<WU>(5, 1));
     } else {
         spaces.push(c06_space::<AL>(5, 1));
+        spaces.push(c06_space::<AM>(5, 1));
+        spaces.push(c06_space::<AX>(5, 1));
+        spaces.push(c06_space::<EL>(5, 1));
+        spaces.push(c06_space::<WU>(5, 1));
     }
     let report = super::report(
         "C06",
@@ -337,6 +345,22 @@ fn c09_space<R: Rep>(n: usize) -> Space {
     })
 }
 
+/// order 6 with a bounded number of arcs (AdjacencyList and AdjacencyMap)
+fn c09_space6(max_arcs: usize) -> Space {
+    Space::new("c09.tarjan6", vec![max_arcs as u64], dcount(6), format!("Tarjan::components on every digraph on 0..6 with ≤ {max_arcs} arcs (AdjacencyList, AdjacencyMap)"), move |idx, ctx| {
+        if idx.count_ones() as usize > max_arcs {
+            ctx.skip();
+            return;
+        }
+        let abs = Abs::from_mask(6, idx);
+        let Some(d) = mkd::<AL>(&abs, ctx) else { return };
+        tarjan_check(&abs, &d, ctx);
+        let Some(d) = mkd::<AM>(&abs, ctx) else { return };
+        tarjan_check(&abs, &d, ctx);
+        ctx.sample(|| json!({"digraph": abs.arcs_json(), "scc": abs.scc()}));
+    })
+}
+
 fn c09_sparse(pool: &'static [usize], k: usize) -> Space {
     let sp = Arc::new(SparseSpace::new(pool, k));
     Space::new("c09.sparse", vec![pool.len() as u64, k as u64, pool.iter().map(|&x| x as u64).sum()], sp.total, format!("Tarjan::components on AdjacencyMap with every vertex set V ⊆ {pool:?}, |V| ≤ {k}, every arc set (non-contiguous ids)"), move |idx, ctx| {
@@ -365,13 +389,12 @@ pub fn c09(tier: &str, seed: u64) -> Check {
     let mut spaces = Vec::new();
     macro_rules! reps {
         ($($t:ty),*) => {$(
-            for n in 1..=4 { spaces.push(c09_space::<$t>(n)); }
-            if thorough { spaces.push(c09_space::<$t>(5)); }
+            for n in 1..=5 { spaces.push(c09_space::<$t>(n)); }
         )*};
     }
     reps!(AL, AM, AX, EL, WU);
-    if !thorough {
-        spaces.push(c09_space::<AL>(5));
+    if thorough {
+        spaces.push(c09_space6(9));
     }
     spaces.push(c09_sparse(&[0, 2, 3, 7, 9], 4));
     spaces.push(c09_sparse(&[1, 4, 6], 3));
@@ -495,7 +518,10 @@ pub fn c10(tier: &str, seed: u64) -> Check {
     for n in 1..=4 {
         spaces.push(c10_space(n, 99));
     }
-    spaces.push(c10_space(5, if thorough { 99 } else { 12 }));
+    spaces.push(c10_space(5, 99));
+    if thorough {
+        spaces.push(c10_space(6, 9));
+    }
     let report = super::report(
         "C10",
         tier,
